@@ -1,6 +1,7 @@
 package an
 
 import (
+	"go/ast"
 	"go/types"
 	"sort"
 	"strings"
@@ -289,4 +290,13 @@ func CanonFieldName(v *types.Var) string {
 	}
 	canonFieldCache[v] = name
 	return name
+}
+
+// CanonGlobalNameOf returns the reference name of the package-level variable id denotes, "" if it denotes none.
+func CanonGlobalNameOf(info *types.Info, id *ast.Ident) string {
+	v, ok := info.Uses[id].(*types.Var)
+	if !ok || v.Pkg() == nil || v.Parent() != v.Pkg().Scope() {
+		return ""
+	}
+	return CanonGlobalName(v)
 }
